@@ -1314,3 +1314,42 @@ def c05p(ctx):
                 not any(ch in x for x in sufs for ch in chars) and {'/', '\\'} <= set(chars)
     ctx.check(ok, '_dimension_dirname:injective', 'dimension values are escaped with an escape character that is escaped first: different values, different names', fn,
               fail='the sanitiser of dimension values is not an injective escape scheme (%s): different dimension values can share a cache directory' % detail)
+
+
+@rule('C05.q', floor=4)
+def c05q(ctx):
+    """a bulk load looks for every tile: the per-level caches ask the database of each level that occurs in the request.  The loads
+    are not the operands of a short-circuit -- `all(<generator of loads>)`, `a and b`, or a loop that returns / breaks at the first level
+    with a missing tile -- or the levels after it are never asked and their stored tiles are reported missing"""
+    n = 0
+    for rel, cname in (('mapproxy/cache/mbtiles.py', 'MBTilesLevelCache'), ('mapproxy/cache/geopackage.py', 'GeopackageLevelCache')):
+        for m in ('load_tiles', 'store_tiles'):
+            fn = ctx.fn('%s:%s.%s' % (rel, cname, m))
+            calls = [x for x in fn.walk() if isinstance(x, ast.Call) and isinstance(x.func, ast.Attribute) and x.func.attr == m and
+                     is_call(x.func.value, 'self._get_level')]
+            if not calls:
+                raise Undecided('%s.%s: no per-level call found' % (cname, m))
+            for x in calls:
+                n += 1
+                why = None
+                par, child = getattr(x, '_parent', None), x
+                while par is not None and not isinstance(par, ast.stmt):
+                    if isinstance(par, ast.GeneratorExp):
+                        user = getattr(par, '_parent', None)
+                        if isinstance(user, ast.Call) and call_name(user) in ('all', 'any', 'next'):
+                            why = '%s(<generator>) stops at the first level that decides it' % call_name(user)
+                    if isinstance(par, ast.BoolOp) and par.values[0] is not child:
+                        why = 'a later operand of and / or is only evaluated when the earlier ones do not decide'
+                    if isinstance(par, ast.IfExp) and par.test is not child:
+                        why = 'one arm of a conditional expression'
+                    child, par = par, getattr(par, '_parent', None)
+                loop = enclosing(x, (ast.For, ast.While))
+                if why is None and loop is not None:
+                    # leaving the loop because of the answer of a level
+                    for s_ in ast.walk(loop):
+                        if isinstance(s_, (ast.Break, ast.Return)) and enclosing(s_, (ast.For, ast.While)) is loop:
+                            why = 'the loop over the levels is left early (%s)' % type(s_).__name__.lower()
+                ctx.check(why is None, '%s.%s:every-level-is-asked' % (cname, m), 'the database of every level in the request is asked', fn, x,
+                          fail='%s.%s does not ask every level: %s' % (cname, m, why))
+    if n < 4:
+        raise Undecided('only %d per-level bulk calls found' % n)
